@@ -10,6 +10,7 @@ from pyvc.engine import (
     SpecEval, St, SV, Out, Unsupported, V, IntS, StrS, ArrIV, NONE_SV,
     mk_int, mk_bool, mk_str, as_i, as_s, as_r, fresh, cls_of, _fresh, heap_sort, base_heap,
 )
+from pyvc.execu import det_simplify
 from pyvc.spec import LoopSpec
 from pyvc.types import Ty
 
@@ -148,7 +149,7 @@ class Stmts:
         if isinstance(s, ast.If):
             outs = []
             for s1, c in self.ev(s.test, st):
-                t = z3.simplify(self.truthy(c, s1))
+                t = det_simplify(self.truthy(c, s1))
                 if not z3.is_false(t) and not self.plainly_infeasible(s1, t):
                     outs += self.exec_block(s.body, self.narrow(s.test, s1.assume(t), True))
                 if not z3.is_true(t) and not self.plainly_infeasible(s1, z3.Not(t)):
